@@ -58,8 +58,11 @@ func zzVerifIsolation(i int) {
 		root, _, err := Decode(nil, bitio.NewBitReader(buf, -1), g, Options{IsRoot: true, FillGaps: true, ReadBuf: &garbage})
 		return root, err
 	}
+	zzMemo, zzMemoReplay, zzMemoCnt = map[string]int{}, false, map[string]int{}
+	defer func() { zzMemo, zzMemoReplay = nil, false }()
 	g1 := vrt.Bytes("garbage1", 8)
 	r1, e1 := run(g1)
+	zzMemoReplay, zzMemoCnt = true, map[string]int{} // same program parameters for the second decode
 	// the second decode inherits whatever the first left in its read buffer, xor arbitrary garbage
 	g2 := vrt.Bytes("garbage2", 8)
 	r2, e2 := run(g2)
@@ -77,7 +80,7 @@ func VerifIsolationSubformat() { zzVerifIsolation(5) }
 // VerifNoAlias: byte slices handed to callers do not alias the shared read
 // buffer: a later read does not change them.
 func VerifNoAlias() {
-	buf := vrt.Bytes("buf", 6)
+	buf := vrt.Bytes("buf", 8)
 	garbage := vrt.Bytes("garbage", 8)
 	d := &D{Endian: BigEndian, bitBuf: bitio.NewBitReader(buf, -1), readBuf: &garbage}
 	d.SeekAbs(int64(vrt.IntRange("pos", 0, 7)))
